@@ -532,6 +532,7 @@ fn run_c13(
         res.into_iter().collect::<Result<Vec<_>, _>>()?
     };
 
+    let mut wrong_seen = 0usize;
     for case in cases {
         let route = str_arg(case, "route");
         let method = str_arg(case, "m");
@@ -549,7 +550,21 @@ fn run_c13(
         else {
             match cred {
                 "admin" => headers.push(bearer(ADMIN_TOKEN)),
-                "wrong" => headers.push(bearer("bm90LWEtdG9rZW4tYXQtYWxs")),
+                "wrong" => {
+                    // a token that is not the administrator's: unrelated,
+                    // a proper prefix of it, it with something appended,
+                    // it with its last character changed (in turn)
+                    wrong_seen += 1;
+                    let t = match wrong_seen % 4 {
+                        0 => "bm90LWEtdG9rZW4tYXQtYWxs".to_string(),
+                        1 => ADMIN_TOKEN[..ADMIN_TOKEN.len() - 2].to_string(),
+                        2 => format!("{ADMIN_TOKEN}x"),
+                        _ => format!(
+                            "{}F", &ADMIN_TOKEN[..ADMIN_TOKEN.len() - 1]
+                        ),
+                    };
+                    headers.push(bearer(&t))
+                }
                 "role" => {
                     let role = RoleDef::from_json(&case["role"]);
                     let idx = names[&role_key(&role)];
